@@ -152,8 +152,13 @@ where
 
     let mag = parse_digits_u128(digits, radix).ok_or_else(invalid)?;
     let val_i128: i128 = if neg {
-        let mag_i128: i128 = mag.try_into().map_err(|_| invalid())?;
-        mag_i128.checked_neg().ok_or_else(invalid)?
+        // The magnitude of i128::MIN (2^127) does not fit i128 itself.
+        if mag == i128::MIN.unsigned_abs() {
+            i128::MIN
+        } else {
+            let mag_i128: i128 = mag.try_into().map_err(|_| invalid())?;
+            mag_i128.checked_neg().ok_or_else(invalid)?
+        }
     } else {
         mag.try_into().map_err(|_| invalid())?
     };
